@@ -607,6 +607,11 @@ class Builder:
             self.outcome = ("raise", pe.exc)
             self.env["exc"] = pe.exc
             r = None
+        except E.Suspend as sp:
+            # the generator under contract suspended at a yield (step contracts of incremental parsers)
+            self.outcome = ("yield", sp.value)
+            self.env["yielded"] = sp.value
+            r = sp.value
         # expose the parameters to the clauses
         a = fv.node.args
         names = [p.arg for p in a.posonlyargs + a.args + a.kwonlyargs]
